@@ -131,6 +131,19 @@ func debugRun(dir, pat string, rest []string) int {
 		}
 		return 0
 	}
+	if only := os.Getenv("GOVC_ONLY"); only != "" {
+		// development aid: decide only the obligations whose name contains one of the comma-separated substrings
+		var keep []*Obligation
+		for _, o := range e.obligations {
+			for _, sub := range strings.Split(only, ",") {
+				if strings.Contains(o.Name, sub) {
+					keep = append(keep, o)
+					break
+				}
+			}
+		}
+		e.obligations = keep
+	}
 	workdir := filepath.Join(verifDir, "work", fmt.Sprintf("debug-%d", os.Getpid()))
 	os.MkdirAll(workdir, 0o755)
 	fail := 0
